@@ -150,6 +150,36 @@ def run(rep, tier, seed):
         if n:
             kf = [f for f in core.known_findings()['open'] if f['id'] == k][0]
             rep.known_finding(f'{k} class ({kf["site"]}): {n} falsified refutations in this run, all attributed by the model counterfactual')
+    # how many of the implementation's refutations are PROVED true by C04_bw_refuted_sound_guarded:
+    # the repaired model (sw_nodrop) gives the same Refuted answer and the decidable guards hold
+    refd = [(cid, line) for cid, line in cs_claims if h_claims.get(cid, '').startswith('refuted')]
+    sample = refd if len(refd) <= 12000 else core.mkrng(seed, 'C04g').sample(refd, 12000)
+    g = core.run_bbm([f'{cid}|bwguard|' + '|'.join(line.split('|')[1:]) for cid, line in sample])
+    proved = unproved = 0
+    why_not = {'answer_differs_under_nodrop (F1 branch involved)': 0, 'halt_box_not_ok (F2 guard)': 0,
+               'skips_not_justified': 0, 'A0_undefined': 0}
+    for cid, line in sample:
+        a = g.get(cid, '').split('|')
+        goal = line.split('|')[1]
+        if len(a) != 4:
+            unproved += 1
+            continue
+        same = a[0] == h_claims[cid]
+        box = a[1] == '1' or goal != 'halt'
+        just = a[2] == '1' or goal == 'blank'
+        a0 = a[3] == '1' or goal != 'halt'
+        if same and box and just and a0:
+            proved += 1
+        else:
+            unproved += 1
+            if not same:
+                why_not['answer_differs_under_nodrop (F1 branch involved)'] += 1
+            elif not box:
+                why_not['halt_box_not_ok (F2 guard)'] += 1
+            elif not just:
+                why_not['skips_not_justified'] += 1
+            else:
+                why_not['A0_undefined'] += 1
     kinds = {}
     for cid, _ in cs_claims:
         a = h_claims.get(cid, '?').split(':')[0]
@@ -164,6 +194,8 @@ def run(rep, tier, seed):
                 'non-trivial = distinct cases refuted at depth > 0',
         'input_distribution': dist, 'answers': kinds,
         'refutations_tested': nref, 'programs_run': nprogs,
+        'refutations_checked_against_theorem': len(sample), 'refutations_proved_true_by_guarded_theorem': proved,
+        'refutations_outside_theorem': unproved, 'outside_theorem_reasons': why_not,
         'falsified_known': counts, 'falsified_new': len(fails),
         'divergences': len(diffs),
         'samples': [cs[0][1], cs[len(cs) // 2][1], cs[-1][1]],
